@@ -329,6 +329,17 @@ def stepEffect (st : Store) : List String → Option (Effect × String)
     match g.weightListOld with
     | some l => pure (Effect.keep, "ok " ++ showRatList l)
     | none => pure (Effect.keep, "err index")
+  | ["aspolar", i] => do
+    -- `grid.as_('polar')` of a Cartesian 2-D grid: per point `[r,c,s]` (direction instead of angle), `[]` = irrational radius
+    let i ← parseNat? i; let g ← st[i]?
+    if g.system ≠ .cartesian ∨ g.coords.ndim ≠ 2 then pure (Effect.keep, "err value") else
+    pure (Effect.keep, "ok " ++ showRatLists (g.coords.asPolarPts.map fun o => o.getD []))
+  | ["ascart", i, cs, sn] => do
+    -- `grid.as_('cartesian')` of a polar grid; the directions `(cos θ_k, sin θ_k)` are supplied per point
+    let i ← parseNat? i; let g ← st[i]?; let cs ← parseRatList? cs; let sn ← parseRatList? sn
+    if cs.length ≠ g.coords.size ∨ sn.length ≠ g.coords.size then none else
+    if g.system ≠ .polar ∨ g.coords.ndim ≠ 2 then pure (Effect.keep, "err value") else
+    pure (Effect.keep, "ok " ++ showRatLists (g.coords.asCartPts (List.zip cs sn)))
   | ["size", i] => do
     let i ← parseNat? i; let g ← st[i]?
     pure (Effect.keep, s!"ok {g.coords.size} {g.coords.ndim}")
